@@ -108,6 +108,22 @@ static double minQuadratic(const Mat& A)
 }
 static std::vector<std::vector<double>> oneBlock(const Vec& v) { std::vector<std::vector<double>> r(1); r[0].assign(v.data(), v.data() + v.size()); return r; }
 
+// a preconditioner for ALinearOpMulti::evalInverse (one block): z = diag(A)^-1 r
+class JacobiMulti : public ALinearOpMulti
+{
+public:
+  JacobiMulti(const Vec& diag) : ALinearOpMulti(), _d(diag) {}
+  int sizes() const override { return 1; }
+  int size(int) const override { return (int)_d.size(); }
+protected:
+  void _evalDirect(const std::vector<std::vector<double>>& inv, std::vector<std::vector<double>>& outv) const override
+  {
+    for (int i = 0; i < (int)_d.size(); i++) outv[0][i] = inv[0][i] / _d[i];
+  }
+private:
+  Vec _d;
+};
+
 static AMesh* buildMesh(const Value& m, int nd)
 {
   if (m.at("type").s() == "turbo" && m.has("sel"))
@@ -378,30 +394,42 @@ static void runConfig(const Value& c, Value& o)
     put(M, "OpEqualsMatrix.MultiCond", maxabs(Mat(matrixOfMulti(A) - Ad)), maxabs(Ad), "cs");
     logdetOpChol = A.computeLogDetOp(1);
   });
+  // solver options: stopping threshold, restart period (exact residual recomputed), Jacobi preconditioner
+  JacobiMulti jacobi(Ad.diagonal());
+  double maxdiag = Ad.diagonal().maxCoeff();
+  bool firstCG = true;
   for (auto& ev : c.at("cgepsset").arr)
-  {
-    double eps = ev.d();
-    char tag[64];
-    snprintf(tag, sizeof tag, "eps=%g", eps);
-    measure(M, "SolveResidual.MultiCondCG", [&]() {
-      if (rhs.empty()) throw std::runtime_error("no right-hand side");
-      PrecisionOp pk(mesh.get(), cova);
-      PrecisionOpMultiConditional A;
-      if (A.push_back(&pk, &B) != 0) throw std::runtime_error("push_back failed");
-      setVariance(A);
-      A.setEps(eps);
-      A.setNIterMax(c.at("cgnitermax").i());
-      std::vector<std::vector<double>> x(1, std::vector<double>(n, 0.)), ax(1, std::vector<double>(n, 0.));
-      A.evalInverse(rhs, x);
-      A.evalDirect(x, ax);
-      double bound = std::sqrt(eps * nb);
-      Vec X = toVec(x[0]), R = toVec(rhs[0]);
-      put(M, "SolveResidual.MultiCondCG", (toVec(ax[0]) - R).norm(), bound, "operator", tag);
-      if (eps == c.at("cgepsset")[0].d()) put(M, "OpEqualsMatrix.MultiCond", maxabs(Mat(matrixOfMulti(A) - Ad)), maxabs(Ad), "matrixfree");
-      put(M, "SolveResidual.MultiCondCGvsAssembled", (Ad * X - R).norm(), bound, "assembled", tag);
-      if (xchol.size() == n) put(M, "CholEqualsCG.MultiCond", (X - xchol).norm(), bound / lminA, "solution", tag);
-    });
-  }
+    for (auto& rv : c.at("cgrestarts").arr)
+      for (int precond = 0; precond < 2; precond++)
+      {
+        double eps = ev.d();
+        int restart = rv.i();
+        char tag[96];
+        snprintf(tag, sizeof tag, "eps=%g restart=%d precond=%d", eps, restart, precond);
+        std::string suffix = std::string(restart > 0 ? " restart" : "") + (precond ? " precond" : "");
+        measure(M, "SolveResidual.MultiCondCG", [&]() {
+          if (rhs.empty()) throw std::runtime_error("no right-hand side");
+          PrecisionOp pk(mesh.get(), cova);
+          PrecisionOpMultiConditional A;
+          if (A.push_back(&pk, &B) != 0) throw std::runtime_error("push_back failed");
+          setVariance(A);
+          A.setEps(eps);
+          A.setNIterMax(c.at("cgnitermax").i());
+          if (restart > 0) A.setNIterRestart(restart);
+          if (precond) A.setPrecond(&jacobi, 1);
+          std::vector<std::vector<double>> x(1, std::vector<double>(n, 0.)), ax(1, std::vector<double>(n, 0.));
+          A.evalInverse(rhs, x);
+          A.evalDirect(x, ax);
+          // stopping rule: r'r / sum|b_i| <= eps, with a preconditioner M: r'Mr / sum|b_i| <= eps, r'Mr >= r'r / max A_ii
+          double bound = std::sqrt(eps * nb * (precond ? maxdiag : 1.));
+          Vec X = toVec(x[0]), R = toVec(rhs[0]);
+          put(M, "SolveResidual.MultiCondCG", (toVec(ax[0]) - R).norm(), bound, "operator" + suffix, tag);
+          if (firstCG) put(M, "OpEqualsMatrix.MultiCond", maxabs(Mat(matrixOfMulti(A) - Ad)), maxabs(Ad), "matrixfree");
+          firstCG = false;
+          put(M, "SolveResidual.MultiCondCGvsAssembled", (Ad * X - R).norm(), bound, "assembled" + suffix, tag);
+          if (xchol.size() == n) put(M, "CholEqualsCG.MultiCond", (X - xchol).norm(), bound / lminA, "solution" + suffix, tag);
+        });
+      }
   bool heavy = c.at("heavy").i() != 0;
   if (heavy) measure(M, "CholEqualsCG.LogDetOp", [&]() {
     PrecisionOp pk(mesh.get(), cova);
@@ -418,68 +446,191 @@ static void runConfig(const Value& c, Value& o)
     info["logdetop_cg"] = Value(v);
   });
 
-  // ------------------------------------------------------------------ the SPDE class, both modes
+  // ------------------------------------------------------------------ several structures, drift: own operators and the SPDE class
   {
+    // the model: K Matern structures (+ nugget effect when no variable V) (+ drift)
+    int K = mo.has("struct2") ? 2 : 1;
+    int order = c.at("driftorder").i();
+    std::unique_ptr<Model> modelK(Model::createFromParam(ECov::MATERN, 1., sill, nu, ranges, VectorDouble(), angles));
+    if (K == 2)
+    {
+      const Value& s2 = mo.at("struct2");
+      modelK->addCovFromParam(ECov::MATERN, 1., s2.at("sill").d(), s2.at("nu").d(), vd(s2.at("ranges")), VectorDouble(), VectorDouble(nd, 0.));
+    }
+    if (!hasV) modelK->addCovFromParam(ECov::NUGGET, 0., nugget);
+    if (order >= 0) modelK->setDriftIRF(order);
+    int p = order < 0 ? 0 : (order == 0 ? 1 : 1 + nd);
+    // dense reference, from public parts only: Q_k, A (the same mesh for every structure), D, X
+    std::vector<std::unique_ptr<PrecisionOpCs>> pcsK;
+    std::vector<std::unique_ptr<PrecisionOp>> popK;
+    std::vector<Mat> QK;
+    for (int k = 0; k < K; k++)
+    {
+      pcsK.emplace_back(new PrecisionOpCs(mesh.get(), modelK->getCova(k)));
+      popK.emplace_back(new PrecisionOp(mesh.get(), modelK->getCova(k)));
+      QK.push_back(denseOf(pcsK[k]->getQ()));
+    }
+    VectorDouble var = dvar;
+    Mat Xd(ndat, p), Xo((int)c.at("targets").size(), p);
+    for (int i = 0; i < ndat; i++) { if (p > 0) Xd(i, 0) = 1.; for (int d = 0; d < p - 1; d++) Xd(i, 1 + d) = da.at("x")[i][d].d(); }
+    for (int i = 0; i < (int)Xo.rows(); i++) { if (p > 0) Xo(i, 0) = 1.; for (int d = 0; d < p - 1; d++) Xo(i, 1 + d) = c.at("targets")[i][d].d(); }
+    Vec Z = toVec(z);
+    // everything that depends on the variances is recomputed once they are known (SPDE class without V: floor of the class)
+    Mat Sigma, Am, Bm, DinvK, G, Ginv;
+    Vec beta;
+    double lmK = 0, dab = 0;
+    auto assemble = [&]() {
+      DinvK = Mat::Zero(ndat, ndat);
+      for (int i = 0; i < ndat; i++) DinvK(i, i) = 1. / var[i];
+      Sigma = Mat::Zero(ndat, ndat);
+      for (int i = 0; i < ndat; i++) Sigma(i, i) = var[i];
+      Bm = Mat::Zero(ndat, K * n);
+      Am = Mat::Zero(K * n, K * n);
+      for (int k = 0; k < K; k++)
+      {
+        Sigma += Bd * QK[k].ldlt().solve(Mat(Bd.transpose()));
+        Bm.block(0, k * n, ndat, n) = Bd;
+        Am.block(k * n, k * n, n, n) = QK[k];
+      }
+      Am += Bm.transpose() * DinvK * Bm;
+      lmK = lambdaMin(Am);
+      dab = (DinvK * Bm).norm();
+      if (p > 0)
+      {
+        Mat SiX = Sigma.ldlt().solve(Xd);
+        G = Xd.transpose() * SiX;
+        Ginv = G.inverse();
+        beta = Ginv * (SiX.transpose() * Z);
+      }
+    };
+    // bound of the error of evalInvCov(x) by CG with the threshold eps: |D^-1 A|_F sqrt(eps sum_k |A_k' D^-1 x|) / lambda_min
+    auto invCovBound = [&](const Vec& x, double eps) { return dab * std::sqrt(eps * K * (Bd.transpose() * DinvK * x).norm()) / lmK; };
+    auto coefBound = [&](double eps) {
+      double emax = invCovBound(Z, eps);
+      for (int j = 0; j < p; j++) emax = std::max(emax, invCovBound(Xd.col(j), eps));
+      Eigen::SelfAdjointEigenSolver<Mat> es(0.5 * (G + G.transpose()), Eigen::EigenvaluesOnly);
+      return (1. / es.eigenvalues().minCoeff()) * std::sqrt((double)p) * (Z.norm() + Xd.norm() * beta.norm()) * emax;
+    };
+    assemble();
+    info["nstruct"] = Value(K);
+    info["ndrift"] = Value(p);
+
+    // ---- own operators: evalInvCov, computeQuadratic, computeCoeffs
+    for (int useChol = 1; useChol >= 0; useChol--)
+    {
+      std::string nm = useChol ? "Cholesky" : "CG";
+      measure(M, "InvCov." + nm, [&]() {
+        std::unique_ptr<PrecisionOpMultiConditional> A(useChol ? new PrecisionOpMultiConditionalCs() : new PrecisionOpMultiConditional());
+        for (int k = 0; k < K; k++)
+          if (A->push_back(useChol ? pcsK[k].get() : popK[k].get(), &B) != 0) throw std::runtime_error("push_back failed");
+        setVariance(*A);
+        A->makeReady();
+        double eps = c.at("cgeps").d();
+        Vec x2(ndat);                      // a second integer vector on the data (entries of Vec1, cyclically)
+        for (int i = 0; i < ndat; i++) x2[i] = v1[i % n];
+        std::vector<Vec> xs = {Z, x2};
+        for (int j = 0; j < p; j++) xs.push_back(Xd.col(j));
+        for (auto& x : xs)
+        {
+          VectorDouble in = toVD(x);
+          std::vector<double> y(ndat, 0.);
+          A->evalInvCov(constvect(in.data(), in.size()), y);
+          Vec want = Sigma.ldlt().solve(x);
+          if (useChol) put(M, "InvCov.Cholesky", (toVec(y) - want).norm(), (DinvK * x).norm(), "evalInvCov");
+          else put(M, "InvCov.CG", (toVec(y) - want).norm(), invCovBound(x, eps), "evalInvCov");
+          std::vector<double> xv(in.begin(), in.end());
+          double q = A->computeQuadratic(xv), qw = x.dot(want);
+          if (useChol) put(M, "InvCov.QuadraticCholesky", std::abs(q - qw), x.dot(DinvK * x), "computeQuadratic");
+          else put(M, "InvCov.QuadraticCG", std::abs(q - qw), x.norm() * invCovBound(x, eps), "computeQuadratic");
+        }
+        if (p > 0)
+        {
+          VectorVectorDouble XX(p);
+          for (int j = 0; j < p; j++) XX[j] = toVD(Vec(Xd.col(j)));
+          VectorDouble bc = A->computeCoeffs(z, XX);
+          if ((int)bc.size() != p) throw std::runtime_error("computeCoeffs returned a wrong number of coefficients");
+          if (useChol) put(M, "Drift.CoeffsCholesky", (toVec(bc) - beta).norm(), beta.norm(), "computeCoeffs");
+          else put(M, "Drift.CoeffsCG", (toVec(bc) - beta).norm(), coefBound(eps), "computeCoeffs");
+        }
+      });
+    }
+
+    // ---- the SPDE class, both modes
     std::unique_ptr<SPDE> s1, s0;
     VectorDouble est1, est0;
-    double bound = std::nan(""), rn = 0, quadWant = std::nan("");
+    double bound = std::nan(""), rn = 0, quadWant = std::nan(""), quadRef = 0;
     measure(M, "CholEqualsCG.KrigingSPDE", [&]() {
-      s1.reset(new SPDE(model2.get(), dbout.get(), dbin.get(), ESPDECalcMode::KRIGING, mesh.get(), 1));
-      s0.reset(new SPDE(model2.get(), dbout.get(), dbin.get(), ESPDECalcMode::KRIGING, mesh.get(), 0));
+      s1.reset(new SPDE(modelK.get(), dbout.get(), dbin.get(), ESPDECalcMode::KRIGING, mesh.get(), 1));
+      s0.reset(new SPDE(modelK.get(), dbout.get(), dbin.get(), ESPDECalcMode::KRIGING, mesh.get(), 0));
       int u1 = s1->compute(dbout.get());
       est1 = dbout->getColumnByUID(u1);
       int u0 = s0->compute(dbout.get());
       est0 = dbout->getColumnByUID(u0);
       if (est1.empty() || est1.size() != est0.size()) throw std::runtime_error("kriging produced no column");
-      // the kriging system assembled independently of the operators of the object: Q (PrecisionOpCs::getQ of an operator
+      // the kriging system assembled independently of the operators of the object: Q_k (PrecisionOpCs::getQ of operators
       // built here), A (ProjMatrix built here), D = the V values; without variable V the variance is the nugget effect
       // raised to the floor of the class: it is read from the object (constant over the data)
-      VectorDouble var = dvar;
-      if (!hasV) var = s1->getPrecisionKrig()->getAllVarianceData();
+      if (!hasV) { var = s1->getPrecisionKrig()->getAllVarianceData(); assemble(); }
       if ((int)var.size() != ndat) throw std::runtime_error("variance of the data and projection matrix do not match");
-      Mat D = Mat::Zero(ndat, ndat);
-      for (int i = 0; i < ndat; i++) D(i, i) = 1. / var[i];
-      Mat As = Qd + Bd.transpose() * D * Bd;
-      Vec r = Bd.transpose() * D * toVec(z);
-      double nbs = r.norm();
-      rn = nbs;
-      double lm = lambdaMin(As);
-      bound = std::sqrt(c.at("cgeps").d() * nbs) / lm;
+      double eps = c.at("cgeps").d();
+      Vec res = Z;                         // data centred by the drift
+      if (p > 0) res = Z - Xd * beta;
+      Vec r = Bm.transpose() * DinvK * res;
+      double nbs = K * (Bd.transpose() * DinvK * res).norm();
+      rn = r.norm();
+      bound = std::sqrt(eps * nbs) / lmK;
+      double bx = bound;
       info["spde_variance_data"] = jv(s1->getPrecisionKrig()->getAllVarianceData());
-      info["spde_lambda_min"] = Value(lm);
+      info["spde_lambda_min"] = Value(lmK);
+      ProjMatrix Bo(dbout.get(), mesh.get());
+      Mat Bod = denseOf(&Bo);
+      Mat Bom(Bod.rows(), K * n);
+      for (int k = 0; k < K; k++) Bom.block(0, k * n, Bod.rows(), n) = Bod;
+      Vec want = Bom * Am.ldlt().solve(r);
+      if (p > 0)
+      {
+        want += Xo * beta;
+        // an error db on the coefficients moves the estimate by (X_out - A_out Am^-1 A' D^-1 X) db
+        Mat T = Xo - Bom * Am.ldlt().solve(Mat(Bm.transpose() * DinvK * Xd));
+        Eigen::JacobiSVD<Mat> svd(T);
+        double cb = coefBound(eps);
+        bound += svd.singularValues()(0) * cb;
+        VectorDouble b1 = s1->getCoeffs(), b0 = s0->getCoeffs();
+        if ((int)b1.size() != p || (int)b0.size() != p) throw std::runtime_error("SPDE::getCoeffs returned a wrong number of coefficients");
+        put(M, "Drift.CoeffsCholesky", (toVec(b1) - beta).norm(), beta.norm(), "SPDE::getCoeffs");
+        put(M, "Drift.CoeffsCG", (toVec(b0) - beta).norm(), cb, "SPDE::getCoeffs");
+      }
       // agreement of the two modes, and each against the solution of the assembled system (projected on the targets)
       put(M, "CholEqualsCG.KrigingSPDE", maxabs(Vec(toVec(est1) - toVec(est0))), bound, "chol-cg");
-      ProjMatrix Bo(dbout.get(), mesh.get());
-      Vec xs = As.ldlt().solve(r);
-      Vec want = denseOf(&Bo) * xs;
       put(M, "CholEqualsCG.KrigingSPDE", maxabs(Vec(toVec(est0) - want)), bound, "cg-assembled");
       put(M, "CholEqualsCG.KrigingSPDE", maxabs(Vec(toVec(est1) - want)), bound, "chol-assembled");
       // the same through the function krigingSPDE
       for (int useChol = 1; useChol >= 0; useChol--)
       {
         int ncol = dbout->getColumnNumber();
-        if (krigingSPDE(dbin.get(), dbout.get(), model2.get(), nullptr, true, false, mesh.get(), useChol) < 0 || dbout->getColumnNumber() != ncol + 1)
+        if (krigingSPDE(dbin.get(), dbout.get(), modelK.get(), nullptr, true, false, mesh.get(), useChol) < 0 || dbout->getColumnNumber() != ncol + 1)
           throw std::runtime_error("krigingSPDE produced no column");
         VectorDouble e = dbout->getColumnByColIdx(ncol);
         put(M, "CholEqualsCG.KrigingSPDE", maxabs(Vec(toVec(e) - want)), bound, useChol ? "krigingSPDE(chol)-assembled" : "krigingSPDE(cg)-assembled");
       }
-      // quadratic term of the likelihood z' Sigma^-1 z, Sigma = A Q^-1 A' + D
-      Mat Sigma = Bd * Qd.ldlt().solve(Mat(Bd.transpose()));
-      for (int i = 0; i < ndat; i++) Sigma(i, i) += var[i];
-      quadWant = toVec(z).dot(Sigma.ldlt().solve(toVec(z)));
+      // quadratic term of the likelihood (z - X beta)' Sigma^-1 (z - X beta)
+      quadWant = res.dot(Sigma.ldlt().solve(res));
+      quadRef = res.norm() * invCovBound(res, eps) + (p > 0 ? 2. * (Sigma.ldlt().solve(res)).norm() * Xd.norm() * coefBound(eps) : 0.);
+      (void)bx;
     });
     measure(M, "CholEqualsCG.Quadratic", [&]() {
       if (!s1 || !s0 || std::isnan(bound)) throw std::runtime_error("kriging by the SPDE class failed");
       double q1 = s1->computeQuad(), q0 = s0->computeQuad();
-      put(M, "CholEqualsCG.Quadratic", std::abs(q1 - q0), rn * bound, "computeQuad");
-      put(M, "CholEqualsCG.Quadratic", std::abs(q1 - quadWant), rn * bound + 1e-9 * std::abs(quadWant), "chol-assembled");
-      put(M, "CholEqualsCG.Quadratic", std::abs(q0 - quadWant), rn * bound + 1e-9 * std::abs(quadWant), "cg-assembled");
+      put(M, "CholEqualsCG.Quadratic", std::abs(q1 - q0), quadRef, "computeQuad");
+      put(M, "CholEqualsCG.Quadratic", std::abs(q1 - quadWant), quadRef + 1e-9 * std::abs(quadWant), "chol-assembled");
+      put(M, "CholEqualsCG.Quadratic", std::abs(q0 - quadWant), quadRef + 1e-9 * std::abs(quadWant), "cg-assembled");
       info["quad_chol"] = Value(q1);
       info["quad_cg"] = Value(q0);
+      info["quad_dense"] = Value(quadWant);
     });
     if (heavy) measure(M, "CholEqualsCG.LogLikelihood", [&]() {
-      SPDE l1(model2.get(), dbout.get(), dbin.get(), ESPDECalcMode::KRIGING, mesh.get(), 1);
-      SPDE l0(model2.get(), dbout.get(), dbin.get(), ESPDECalcMode::KRIGING, mesh.get(), 0);
+      SPDE l1(modelK.get(), dbout.get(), dbin.get(), ESPDECalcMode::KRIGING, mesh.get(), 1);
+      SPDE l0(modelK.get(), dbout.get(), dbin.get(), ESPDECalcMode::KRIGING, mesh.get(), 0);
       law_set_random_seed(c.at("seed").i());
       double a = l1.computeLogLikelihood(c.at("nbsimu").i());
       law_set_random_seed(c.at("seed").i());
@@ -487,7 +638,7 @@ static void runConfig(const Value& c, Value& o)
       put(M, "CholEqualsCG.LogLikelihood", std::abs(a - b), std::max(1., std::abs(a)), "computeLogLikelihood");
       info["loglike_chol"] = Value(a);
       info["loglike_cg"] = Value(b);
-      double c1 = logLikelihoodSPDE(dbin.get(), model2.get(), dbout.get(), mesh.get(), 1, c.at("nbsimu").i());
+      double c1 = logLikelihoodSPDE(dbin.get(), modelK.get(), dbout.get(), mesh.get(), 1, c.at("nbsimu").i());
       put(M, "CholEqualsCG.LogLikelihoodEntryPoints", std::abs(a - c1), std::max(1., std::abs(a)), "logLikelihoodSPDE(chol)-SPDE(chol)");
     });
   }
